@@ -1433,6 +1433,13 @@ std::string render_with_library(const Scenario &s, pbt::Ctx &ctx) {
     using TC = TemplateCore<Char_T, Value<Char_T>, StringStream<Char_T>>;
     // fresh single render: the reference for every other way of rendering
     Template::Render(tb.cp(), SizeT(tb.n), v, out);
+    {   // decided before the concurrent phase: a render that writes to the shared value makes that phase a data race (it can hang)
+        StringStream<Char_T> value_now;
+        v.Stringify(value_now, 17U);
+        if (!(value_now == value_before)) {
+            ctx.fail("render-modified-value", "a single render modified the value: " + s.text);
+        }
+    }
     Units tpl_before = jm::units_of(tb.cp(), tb.n);
     // one parsed cache, reused: repeated renders, streams that already hold content, a copy of the cache
     Array<Tags::TagBit> cache;
